@@ -69,7 +69,8 @@ Fixpoint exec_all (fk : bool) (d : db) (ss : list stmt) : option db :=
 Inductive cmd :=
 | CSchema                               (* CREATE TABLE p, c *)
 | CReq (tx : bool) (ss : list stmt)     (* Execute request *)
-| CLoad (d : db).                       (* Load: the database is replaced *)
+| CLoad (d : db)                        (* Load: the database is replaced *)
+| CLoadRejected.                        (* Load of data that is not a readable database: committed to the log, refused when applied *)
 
 (* CommandProcessor.Process on a database opened with foreign keys fk *)
 Definition step (fk : bool) (d : db) (c : cmd) : db :=
@@ -78,6 +79,7 @@ Definition step (fk : bool) (d : db) (c : cmd) : db :=
   | CReq false ss => exec_each fk d ss
   | CReq true ss => match exec_all fk d ss with Some d' => d' | None => d end
   | CLoad d' => d'
+  | CLoadRejected => d
   end.
 
 (* ------------------------------------------------------------------ the peers file *)
@@ -226,6 +228,7 @@ Definition cmd_eqb (a b : cmd) : bool :=
   | CSchema, CSchema => true
   | CReq t x, CReq u y => Bool.eqb t u && stmts_eqb x y
   | CLoad x, CLoad y => db_eqb x y
+  | CLoadRejected, CLoadRejected => true
   | _, _ => false
   end.
 Definition entry_eqb (a b : entry cmd) : bool :=
